@@ -146,7 +146,7 @@ pub async fn accept_loop<F>(
             Some(AcceptResult::TooManyOpenFiles) => {
                 #[cfg(feature = "verif_hooks")]
                 crate::verif::emit("AccAcceptErr", 24, 0);
-                error("too many open files, unable to accept connection", ()).unwrap();
+                let _ = error("too many open files, unable to accept connection", ());
                 safina::timer::sleep_for(Duration::from_millis(500)).await;
             }
             Some(AcceptResult::Err(e)) => {
